@@ -68,14 +68,29 @@ theorem foldl_pstep_stop (k : FillCtx) (E : List Inst) (st : FillSt) (h : st.fin
 theorem emitStep_pstep (k : FillCtx) (ninst yy yd : Nat) (st : FillSt) (t : Nat × Nat × Nat) (hs : k.sh = 0)
     (ht : k.tposp = false) : emitStep k ninst yy yd st t = pstep k st (mkX k yy yd t) := by
   unfold emitStep pstep mkX
-  simp only [ht, hs, Bool.false_eq_true, false_and, ite_false, ne_eq, not_true_eq_false, and_false]
-  split
-  · rfl
-  split
-  · rfl
-  split
-  · rfl
-  · split <;> rfl
+  by_cases c1 : st.fin ∨ !(st.res < k.nti)
+  · rw [if_pos c1, if_pos c1]
+  · rw [if_neg c1, if_neg c1]
+    dsimp only
+    rw [ht]
+    have e : (if false = true then { out := st.out, res := st.res, inst := st.inst + 1, hit := st.hit, fin := st.fin } else st) = st := if_neg (by decide)
+    rw [e]
+    have e2 : ¬ (false = true ∧ (!possSelP k.pos st.inst st.inst ninst) = true) := fun h => Bool.false_ne_true h.1
+    rw [if_neg e2]
+    generalize mkInst yy (yd / 32 + 1) (yd % 32) t.1 t.2.1 t.2.2 k.proto.ms = x
+    by_cases c2 : ltP k.untl x = true
+    · rw [if_pos c2, if_pos c2]
+    · rw [if_neg c2, if_neg c2]
+      by_cases c3 : ltP x k.proto = true
+      · rw [if_pos c3, if_pos c3]
+      · rw [if_neg c3, if_neg c3]
+        have c4 : ∀ prev : Inst, ¬ (st.res ≠ 0 ∧ k.sh ≠ 0 ∧ (!ltP prev x) = true) := by
+          intro prev h; exact h.2.1 hs
+        cases ho : st.out with
+        | nil => rfl
+        | cons prev rest => 
+          show (if st.res ≠ 0 ∧ k.sh ≠ 0 ∧ (!ltP prev x) = true then _ else _) = _
+          rw [if_neg (c4 prev)]
 
 theorem emitDay_pstep (k : FillCtx) (ninst yy yd : Nat) (st : FillSt) (hs : k.sh = 0) (ht : k.tposp = false) :
     emitDay k ninst yy yd st = (dayE k yy yd).foldl (pstep k) st := by
@@ -103,7 +118,9 @@ theorem emitSet_pstep (k : FillCtx) (ninst yy : Nat) (cs : List Nat) (st : FillS
         else emitDay k ninst yy c st) = (dayE k yy c).foldl (pstep k) st := by
       split
       · rename_i h; rw [foldl_pstep_stop k _ st h]
-      · rw [ht]; simp only [Bool.false_eq_true, false_and, ite_false]
+      · have e2 : ¬ (k.tposp = true ∧ (!possSelP k.pos (st.inst + 1) (st.inst + k.nT) ninst) = true) := by
+          intro h; rw [ht] at h; exact Bool.false_ne_true h.1
+        rw [if_neg e2]
         exact emitDay_pstep k ninst yy c st hs ht
     rw [h1]
     exact ih _
@@ -116,8 +133,95 @@ theorem finishPeriod_pstep (k : FillCtx) (y : Nat) (cand : List Nat) (st : FillS
   have e1 : (if !k.tposp then clrPoss cand k.pos else cand) = clrPoss cand k.pos := by rw [ht]; rfl
   have e2 : (if k.tposp then { st with inst := 0 } else st) = st := by rw [ht]; rfl
   have e3 : shift { same := clrPoss cand k.pos } y k.sh = { same := clrPoss cand k.pos } := by rw [hs]; rfl
-  simp only [e1, e2, e3, List.foldl_cons, List.foldl_nil]
-  rw [emitSet_pstep k _ _ [] _ hs ht, emitSet_pstep k _ _ _ _ hs ht, emitSet_pstep k _ _ [] _ hs ht]
-  simp [setE]
+  dsimp only
+  rw [e1, e2, e3]
+  rw [List.foldl_cons, List.foldl_cons, List.foldl_cons, List.foldl_nil]
+  show List.foldl _ (List.foldl _ (List.foldl _ _ []) _) [] = _
+  rw [List.foldl_nil, List.foldl_nil]
+  rw [emitSet_pstep k _ y _ _ hs ht]
+
+/-- the two period loops as one: positions `P`, the period's year, what the period offers, the next position;
+`T` is what `tries` is set back to after a hit -/
+def aLoop {P : Type} (k : FillCtx) (T : Nat) (yr : P → Nat) (E : P → List Inst) (next : P → P) :
+    Nat → P → Nat → FillSt → FillSt
+  | 0, _, _, st => st
+  | fuel+1, p, tries, st =>
+    if !(st.res < k.nti) then st else
+    if tries - 1 = 0 then st else
+    if yr p > maxYear then st else
+    if ((E p).foldl (pstep k) { st with hit := false }).fin then (E p).foldl (pstep k) { st with hit := false } else
+    aLoop k T yr E next fuel (next p)
+      (if ((E p).foldl (pstep k) { st with hit := false }).hit then T else tries - 1)
+      ((E p).foldl (pstep k) { st with hit := false })
+
+theorem mlyLoop_sim (c : MlyCtx) (E : Nat × Int → List Inst)
+    (hE : ∀ (y : Nat) (m : Int) (a b : FillSt), Sim a b →
+      Sim (finishPeriod c.k y (mlyCand c y (toU32 m)) a) ((E (y, m)).foldl (pstep c.k) { b with hit := false })) :
+    ∀ (fuel y : Nat) (m : Int) (tries : Nat) (a b : FillSt), Sim a b →
+      Sim (mlyLoop c fuel y m tries a)
+        (aLoop c.k mlyTries (fun p => p.1) E (fun p => mlyNext c.r.mon c.r.inter 12 p.1 p.2) fuel (y, m) tries b) := by
+  intro fuel
+  induction fuel with
+  | zero => intro y m tries a b h; exact h
+  | succ fuel ih =>
+    intro y m tries a b h
+    unfold mlyLoop aLoop
+    have hres : a.res = b.res := h.2.1
+    rw [hres]
+    by_cases c1 : (!decide (b.res < c.k.nti)) = true
+    · rw [if_pos c1, if_pos c1]; exact h
+    rw [if_neg c1, if_neg c1]
+    dsimp only
+    by_cases c2 : tries - 1 = 0
+    · rw [if_pos c2, if_pos c2]; exact h
+    rw [if_neg c2, if_neg c2]
+    by_cases c3 : y > maxYear
+    · rw [if_pos c3, if_pos c3]; exact h
+    rw [if_neg c3, if_neg c3]
+    have hs := hE y m a b h
+    generalize finishPeriod c.k y (mlyCand c y (toU32 m)) a = a' at hs
+    generalize (E (y, m)).foldl (pstep c.k) { b with hit := false } = b' at hs
+    have hfin : a'.fin = b'.fin := hs.2.2.2
+    have hhit : a'.hit = b'.hit := hs.2.2.1
+    rw [hfin, hhit]
+    by_cases c4 : b'.fin = true
+    · rw [if_pos c4, if_pos c4]; exact hs
+    rw [if_neg c4, if_neg c4]
+    exact ih _ _ _ _ _ hs
+
+theorem ylyLoop_sim (c : YlyCtx) (E : Nat → List Inst)
+    (hE : ∀ (y : Nat) (a b : FillSt), Sim a b →
+      Sim (finishPeriod c.k y (ylyCand c y) a) ((E y).foldl (pstep c.k) { b with hit := false })) :
+    ∀ (fuel y : Nat) (tries : Nat) (a b : FillSt), Sim a b →
+      Sim (ylyLoop c fuel y tries a)
+        (aLoop c.k 64 (fun p => p) E (fun p => (p + c.r.inter) % u32) fuel y tries b) := by
+  intro fuel
+  induction fuel with
+  | zero => intro y tries a b h; exact h
+  | succ fuel ih =>
+    intro y tries a b h
+    unfold ylyLoop aLoop
+    have hres : a.res = b.res := h.2.1
+    rw [hres]
+    by_cases c1 : (!decide (b.res < c.k.nti)) = true
+    · rw [if_pos c1, if_pos c1]; exact h
+    rw [if_neg c1, if_neg c1]
+    dsimp only
+    by_cases c2 : tries - 1 = 0
+    · rw [if_pos c2, if_pos c2]; exact h
+    rw [if_neg c2, if_neg c2]
+    by_cases c3 : y > maxYear
+    · rw [if_pos c3, if_pos c3]; exact h
+    rw [if_neg c3, if_neg c3]
+    have hs := hE y a b h
+    generalize finishPeriod c.k y (ylyCand c y) a = a' at hs
+    generalize (E y).foldl (pstep c.k) { b with hit := false } = b' at hs
+    have hfin : a'.fin = b'.fin := hs.2.2.2
+    have hhit : a'.hit = b'.hit := hs.2.2.1
+    rw [hfin, hhit]
+    by_cases c4 : b'.fin = true
+    · rw [if_pos c4, if_pos c4]; exact hs
+    rw [if_neg c4, if_neg c4]
+    exact ih _ _ _ _ hs
 
 end Echse.Lemmas.RrCandRfc
